@@ -360,6 +360,8 @@ func runGuided(sysName string, n int, traceFile string, args map[string]int) {
 	}
 }
 
+var lightStates = 0 // walk policy without fan-out: write the full state only every lightStates-th step (0 = always)
+
 var (
 	fanout     int // max. number of extra successors emitted per visited state (guided policy); 0 = off
 	fanoutSeen = map[string]bool{}
@@ -448,8 +450,11 @@ func runWalkTo(run int, sysName string, n int, seed int64, maxSteps int, policy 
 		}
 		// successors of the current state, sampled per label
 		curVars := s.DumpVars(cur)
-		curCanon := tlaval.MustCanon(s.Dump(cur))
-		if !fanoutSeen[curCanon] {
+		curCanon := ""
+		if maxEdges > 0 {
+			curCanon = tlaval.MustCanon(s.Dump(cur))
+		}
+		if maxEdges > 0 && !fanoutSeen[curCanon] {
 			fanoutSeen[curCanon] = true
 			for pi := range s.Procs {
 				if cur.P[pi].PC == "Done" {
@@ -494,7 +499,16 @@ func runWalkTo(run int, sysName string, n int, seed int64, maxSteps int, policy 
 		steps++
 		pos++
 		d, _ := diffVars(curVars, s.DumpVars(nx))
-		emit(line{E: "step", Proc: s.Procs[pi].Self.String(), Label: cur.P[pi].PC, State: s.Dump(nx), Choices: ch, D: d})
+		var obs interface{}
+		if s.Observe != nil {
+			np := nx.P[pi]
+			obs = s.Observe(s.Procs[pi], cur.P[pi].PC, np.PC, func(r string) tla.Value { return np.Locals[r] })
+		}
+		st := ""
+		if maxEdges > 0 || lightStates == 0 || steps%lightStates == 0 {
+			st = s.Dump(nx)
+		}
+		emit(line{E: "step", Proc: s.Procs[pi].Self.String(), Label: cur.P[pi].PC, State: st, Choices: ch, D: d, Obs: obs})
 		cur = nx
 	}
 	var labels []string
@@ -710,6 +724,7 @@ func main() {
 	extra := flag.String("args", "", "k=v,k=v extra integer parameters")
 	traceF := flag.String("trace", "", "ndjson of TLC behaviours for -policy guided")
 	flag.IntVar(&fanout, "fanout", 0, "guided policy: also emit up to this many other successors of every visited state")
+	flag.IntVar(&lightStates, "light", 0, "walk policies without fan-out: full state only every n-th step")
 	contF := flag.String("cont", "", "walk-* policies: JSON {run, step, proc, label, choices, state, walks, len}: replay that walk to that state and explore directed continuations")
 	flag.Parse()
 	args := map[string]int{}
